@@ -189,7 +189,7 @@ def strategy():
     run = st.tuples(st.text(alphabet=alpha, min_size=0, max_size=5), st.sampled_from(FMTS)).map(list)
     long_run = st.tuples(st.one_of(st.text(alphabet=alpha + "aaab", min_size=10, max_size=70), st.text(alphabet=alpha + "aaab", min_size=240, max_size=300)), st.sampled_from(FMTS)).map(list)
     return st.fixed_dictionaries({"desc": st.one_of(st.lists(run, min_size=0, max_size=5), st.lists(run, min_size=0, max_size=5),
-                                                     st.lists(run, min_size=8, max_size=70), st.lists(long_run, min_size=1, max_size=3),
+                                                     st.lists(run, min_size=8, max_size=70), st.lists(run, min_size=33, max_size=80), st.lists(long_run, min_size=1, max_size=3),
                                                      st.tuples(st.lists(run, min_size=1, max_size=3), st.integers(2, 3)).map(lambda t: [list(r) for r in t[0]] * t[1])),
                                   "build": st.sampled_from(["chunks", "chunks", "observed_concat", "d_mul", "d_slice", "d_concat", "d_removed", "d_copy"]), "obs": gen_OBS})
 
@@ -211,5 +211,5 @@ def campaign(col, tier, seed, shard, nshards):
                 if unknown:
                     col.add_violation(case, unknown)
     col.exhaustive[f"strings_len_le_{maxlen}_x_layouts_x_all_ranges"] = True
-    n = 1600 if tier == "quick" else 50000
+    n = 2400 if tier == "quick" else 50000
     hyp_campaign(col, strategy(), run_case, max(n // nshards, 100), seed * 100 + shard)
